@@ -171,7 +171,8 @@ func getFlattenedMap(key string, ve *ValidationError, getWarnings bool) map[stri
 func prefixKeys(m map[string][]string, prefix string) map[string][]string {
 	result := make(map[string][]string)
 	for k, v := range m {
-		result[prefix+k] = v
+		// copy the messages: addMsgs appends to these slices, which must not write into spare capacity of the caller's slice
+		result[prefix+k] = append([]string(nil), v...)
 	}
 	return result
 }
